@@ -57,6 +57,21 @@ type acctWorld struct {
 
 	// conservative bounds for in-flight reservations (see DESIGN C03)
 	started, finished atomic.Int64
+
+	configuredMax int64 // the max_size the instance was configured with (== max; kept apart from what the cache reports)
+	holding       bool  // uploads/fetches are being held open by the harness: no restart, no nested hold phase
+	held          []*heldOp
+	gates         sync.Map // proxy key -> *readGate (fetches held open inside the backend's stream)
+	hookCount     func(point string) int64
+
+	// AC/RAW values: content hashes a key may legitimately hold (the last accepted upload or the backend's value;
+	// in a concurrent phase every value accepted during that phase)
+	accMu      sync.Mutex
+	accepted   map[string]map[string]bool
+	backendVal map[string]string // AC/RAW value (hash) the backend currently holds for a key
+	concurrent bool
+
+	phaseOverride string // finding-key phase of the next quiescent check (e.g. "repair" after a damaged file was read)
 }
 
 func (w *acctWorld) log(format string, a ...any) {
@@ -105,7 +120,8 @@ func makeAR(rng *rand.Rand, cas []acctItem, tag string) []byte {
 // opKinds for evidence.
 var acctOps = []string{"put", "put", "put", "put", "put-ac", "put-raw", "get", "get-unknown", "getzstd", "put", "put-badhash", "put-short", "put-long", "put-readerr", "put-toolarge", "put-ac", "put-raw",
 	"get", "get-unknown", "get-partial", "getzstd", "contains", "findmissing", "getvalidated", "proxyfetch-ok", "proxyfetch-fail", "put-zero",
-	"proxyfetch-ac", "proxyfetch-raw", "restart", "overwrite-tail", "overwrite-tail", "put-zero", "put-writeerr", "put-writeerr", "proxyfetch-writeerr"}
+	"proxyfetch-ac", "proxyfetch-raw", "restart", "overwrite-tail", "overwrite-tail", "put-zero", "put-writeerr", "put-writeerr", "proxyfetch-writeerr", "overwrite-tail", "put-zero",
+	"proxyfetch-wrongsize", "proxyfetch-wrongsize", "get-wrongsize", "hold", "hold", "damage-header", "unlink-file", "put-nofile", "proxyfetch-nofile"}
 
 func (w *acctWorld) step(rng *rand.Rand, concurrent bool) {
 	ctx := context.Background()
@@ -139,26 +155,36 @@ func (w *acctWorld) step(rng *rand.Rand, concurrent bool) {
 		} else {
 			outcome = "err"
 		}
-	case "put-short":
-		cut := rng.IntN(len(it.content))
-		var err error
-		track(size, func() { err = w.c.Put(ctx, cache.CAS, it.hash, size, bytes.NewReader(it.content[:cut])) })
-		if err != nil {
-			outcome = "err"
+	case "put-short", "put-long", "put-readerr":
+		// the stream ends early / carries surplus bytes / fails part-way - for CAS blobs and for AC/RAW values
+		kind, key, val := cache.CAS, it.hash, it.content
+		if rng.IntN(3) == 0 {
+			kind, key, val = []cache.EntryKind{cache.AC, cache.RAW}[rng.IntN(2)], w.acKeys[rng.IntN(len(w.acKeys))], makeAR(rng, w.cas, w.caseID)
+			outcome = kind.String() + "."
+		} else {
+			outcome = ""
 		}
-	case "put-long":
-		long := append(append([]byte(nil), it.content...), 1, 2, 3)
-		var err error
-		track(size, func() { err = w.c.Put(ctx, cache.CAS, it.hash, size, bytes.NewReader(long)) })
-		if err != nil {
-			outcome = "err"
+		var rd io.Reader
+		switch op {
+		case "put-short":
+			rd = bytes.NewReader(val[:rng.IntN(len(val))])
+		case "put-long":
+			rd = bytes.NewReader(append(append([]byte(nil), val...), 1, 2, 3))
+		default:
+			fail := rng.IntN(len(val) + 1)
+			if kind != cache.CAS {
+				fail = rng.IntN(len(val)) // (an AC/RAW value delivered completely before the error would be a complete upload)
+			}
+			rd = &errAfterReader{data: val, fail: fail}
 		}
-	case "put-readerr":
 		var err error
-		rd := &errAfterReader{data: it.content, fail: rng.IntN(len(it.content) + 1)}
-		track(size, func() { err = w.c.Put(ctx, cache.CAS, it.hash, size, rd) })
+		track(int64(len(val)), func() { err = w.c.Put(ctx, kind, key, int64(len(val)), rd) })
 		if err != nil {
-			outcome = "err"
+			outcome += "err"
+		} else {
+			// (an acknowledged broken AC/RAW upload records no acceptable value: the deep pass of M-dir then finds an
+			// entry whose bytes are not a value that was accepted)
+			outcome += "ok"
 		}
 	case "put-writeerr":
 		// the file system refuses the write part-way: the process's file size limit (RLIMIT_FSIZE, soft) is lowered
@@ -184,6 +210,8 @@ func (w *acctWorld) step(rng *rand.Rand, concurrent bool) {
 		restore()
 		if err != nil {
 			outcome = "err"
+		} else {
+			w.accept(kind, key, val)
 		}
 	case "put-toolarge":
 		big := w.max + int64(1+rng.IntN(8192))
@@ -194,9 +222,12 @@ func (w *acctWorld) step(rng *rand.Rand, concurrent bool) {
 		}
 	case "put-zero":
 		kind := []cache.EntryKind{cache.RAW, cache.AC}[rng.IntN(2)]
-		err := w.c.Put(ctx, kind, w.acKeys[rng.IntN(len(w.acKeys))], 0, bytes.NewReader(nil))
+		zk := w.acKeys[rng.IntN(len(w.acKeys))]
+		err := w.c.Put(ctx, kind, zk, 0, bytes.NewReader(nil))
 		if err != nil {
 			outcome = "err"
+		} else {
+			w.accept(kind, zk, nil)
 		}
 	case "overwrite-tail":
 		// overwrite the least recently used entry (the next eviction victim) with a value of another size
@@ -225,6 +256,9 @@ func (w *acctWorld) step(rng *rand.Rand, concurrent bool) {
 			}
 			track(int64(len(val)), func() { err = w.c.Put(ctx, kind, hash, int64(len(val)), bytes.NewReader(val)) })
 			outcome = fmt.Sprintf("%dblocks-over-%dblocks.", (len(val)+4095)/4096, (tail.SizeOnDisk+4095)/4096)
+			if err == nil {
+				w.accept(kind, hash, val)
+			}
 		}
 		if err != nil {
 			outcome += "err"
@@ -242,6 +276,8 @@ func (w *acctWorld) step(rng *rand.Rand, concurrent bool) {
 		track(int64(len(val)), func() { err = w.c.Put(ctx, kind, k, int64(len(val)), bytes.NewReader(val)) })
 		if err != nil {
 			outcome = "err"
+		} else {
+			w.accept(kind, k, val)
 		}
 	case "get", "get-unknown", "get-partial", "getzstd":
 		sz := size
@@ -305,7 +341,7 @@ func (w *acctWorld) step(rng *rand.Rand, concurrent bool) {
 		}
 	case "restart":
 		// (an instance with a backend starts 512 lookup workers that never stop: at most one restart there)
-		if concurrent || w.srv != nil || w.restarts >= 3 || (w.px != nil && w.restarts >= 1) {
+		if concurrent || w.holding || w.srv != nil || w.restarts >= 3 || (w.px != nil && w.restarts >= 1) {
 			return
 		}
 		outcome = w.restart(rng)
@@ -324,6 +360,7 @@ func (w *acctWorld) step(rng *rand.Rand, concurrent bool) {
 		}
 		val := makeAR(rng, w.cas, w.caseID)
 		w.px.SetBlob(kind, k, val)
+		w.acceptAlso(kind, k, val) // (stored only if the key is not held and the fetch completes: either value is legitimate)
 		if rng.IntN(3) == 0 {
 			pl := lib.ProxyPlan{Once: true}
 			switch rng.IntN(4) {
@@ -365,6 +402,7 @@ func (w *acctWorld) step(rng *rand.Rand, concurrent bool) {
 		w.px.ClearPlan(kind, k)
 		if rng.IntN(2) == 0 {
 			w.px.Delete(kind, k)
+			w.backendDropped(kind, k)
 		}
 	case "proxyfetch-writeerr":
 		// a backend fetch whose local file write fails part-way (see put-writeerr)
@@ -394,6 +432,97 @@ func (w *acctWorld) step(rng *rand.Rand, concurrent bool) {
 			_ = rc.Close()
 		}
 		w.px.Delete(cache.CAS, it.hash)
+	case "hold":
+		if concurrent || w.holding || w.srv != nil {
+			return
+		}
+		w.holdPhase(rng)
+		return
+	case "damage-header", "unlink-file":
+		if w.srv != nil || (concurrent && w.which == "C04") {
+			return
+		}
+		outcome = w.damageAndRead(rng, op, concurrent)
+		if outcome == "" {
+			return
+		}
+	case "put-nofile", "proxyfetch-nofile":
+		if concurrent || w.holding || w.srv != nil {
+			return
+		}
+		outcome = w.noFileStep(rng, op, it)
+		if outcome == "" {
+			return
+		}
+	case "proxyfetch-wrongsize":
+		// the backend announces a logical size that is not the blob's (one more, one less, unknown), to requests that
+		// state the size and to requests that do not
+		if w.px == nil {
+			return
+		}
+		w.px.SetBlob(cache.CAS, it.hash, it.content)
+		rep := []int64{size + 1, size - 1, -1}[rng.IntN(3)]
+		if rep == 0 {
+			rep = 2
+		}
+		w.px.SetPlan(cache.CAS, it.hash, lib.ProxyPlan{ReportSize: rep, Once: true})
+		sz := size
+		if rng.IntN(2) == 0 {
+			sz = -1
+		}
+		var rc io.ReadCloser
+		var err error
+		track(size, func() {
+			if rng.IntN(3) == 0 {
+				rc, _, err = w.c.GetZstd(ctx, it.hash, sz, 0)
+			} else {
+				rc, _, err = w.c.Get(ctx, cache.CAS, it.hash, sz, 0)
+			}
+		})
+		outcome = fmt.Sprintf("announced%+d.", rep-size)
+		if rep == -1 {
+			outcome = "announced-unknown."
+		}
+		outcome += map[bool]string{true: "sized.", false: "unsized."}[sz >= 0]
+		switch {
+		case err != nil:
+			outcome += "err"
+		case rc == nil:
+			outcome += "miss"
+		default:
+			_, _ = io.Copy(io.Discard, rc)
+			_ = rc.Close()
+			outcome += "served"
+		}
+		w.px.ClearPlan(cache.CAS, it.hash)
+		w.px.Delete(cache.CAS, it.hash)
+	case "get-wrongsize":
+		// a read that states a size the entry does not have; with a backend this is a local miss for which space is
+		// reserved and the backend is asked
+		wrong := size + int64(1+rng.IntN(3))
+		if rng.IntN(2) == 0 && size > 1 {
+			wrong = size - 1
+		}
+		if w.px != nil && rng.IntN(2) == 0 {
+			w.px.SetBlob(cache.CAS, it.hash, it.content)
+		}
+		var rc io.ReadCloser
+		var err error
+		track(wrong, func() { rc, _, err = w.c.Get(ctx, cache.CAS, it.hash, wrong, 0) })
+		outcome = map[bool]string{true: "backend.", false: "local."}[w.px != nil]
+		switch {
+		case err != nil:
+			outcome += "err"
+		case rc == nil:
+			outcome += "miss"
+		default:
+			_, _ = io.Copy(io.Discard, rc)
+			_ = rc.Close()
+			outcome += "served"
+		}
+		if w.px != nil {
+			w.px.Delete(cache.CAS, it.hash)
+		}
 	case "proxyfetch-ok", "proxyfetch-fail":
 		if w.px == nil {
 			return
@@ -457,7 +586,11 @@ func (w *acctWorld) restart(rng *rand.Rand) string {
 	o.ZstdImpl = []string{"go", "cgo"}[rng.IntN(2)]
 	if w.px != nil {
 		w.px = lib.NewFakeProxy(o.Storage == "zstd")
+		w.px.ReadHook = w.proxyReadHook
 		o.Proxy = w.px
+		w.accMu.Lock()
+		w.backendVal = nil // (a new, empty backend)
+		w.accMu.Unlock()
 	}
 	c, _, err := lib.NewCache(o)
 	if err != nil {
@@ -466,7 +599,7 @@ func (w *acctWorld) restart(rng *rand.Rand) string {
 	}
 	w.log("restart storage %s->%s max %d->%d", w.storage, o.Storage, w.max, o.MaxSize)
 	res := "ok." + map[bool]string{true: "same-mode", false: "other-mode"}[o.Storage == w.storage]
-	w.c, w.opts, w.storage, w.max = c, o, o.Storage, o.MaxSize
+	w.c, w.opts, w.storage, w.max, w.configuredMax = c, o, o.Storage, o.MaxSize, o.MaxSize
 	w.restarts++
 	return res
 }
@@ -491,7 +624,7 @@ func lowerFileSizeLimit(limit uint64) (func(), bool) {
 // including uploads aborted part-way by the client.
 func (w *acctWorld) serverStep(rng *rand.Rand, it acctItem) {
 	size := int64(len(it.content))
-	ops := []string{"bs-ok", "bs-abort", "bs-toomuch", "bs-rename", "bs-zstd-garbage", "http-put", "http-put-badhash", "http-put-abort", "batch-update"}
+	ops := append([]string{"bs-ok", "bs-abort", "bs-toomuch", "bs-rename", "bs-zstd-garbage", "http-put", "http-put-badhash", "http-put-abort", "batch-update"}, frontEndExtraOps...)
 	op := ops[rng.IntN(len(ops))]
 	outcome := "ok"
 	uuid := fmt.Sprintf("%08x-0000-4000-8000-%012x", rng.Uint32(), rng.Uint64()&0xffffffffffff)
@@ -578,6 +711,11 @@ func (w *acctWorld) serverStep(rng *rand.Rand, it acctItem) {
 			_ = conn.Close()
 		}
 		outcome = "aborted"
+	case "bs-zstd-ok", "bs-zstd-abort", "bs-zstd-cut", "http-put-zstd", "http-put-zstd-abort", "http-ac-put-abort":
+		outcome, aborted = w.frontEndExtra(rng, op, it, uuid)
+		if outcome == "" {
+			return
+		}
 	case "batch-update":
 		ctx, cancel := lib.Ctx()
 		_, err := w.srv.CAS.BatchUpdateBlobs(ctx, &pb.BatchUpdateBlobsRequest{Requests: []*pb.BatchUpdateBlobsRequest_Request{{Digest: &pb.Digest{Hash: it.hash, SizeBytes: size}, Data: it.content}}})
@@ -606,8 +744,29 @@ func (w *acctWorld) detail(extra any) map[string]any {
 	return map[string]any{"case": w.caseID, "max_size": w.max, "storage": w.storage, "history": append([]string(nil), w.hist...), "observed": extra}
 }
 
-// checkStep evaluates both monitors at a quiescent point.
+// quiescentAcct evaluates M-acct (plus the external views) on a fresh snapshot.
+func (w *acctWorld) quiescentAcct() (disk.VerifSnap, []string, []string) {
+	snap := lib.Snapshot(w.c)
+	instant := lib.CheckAcct(snap) // holds at every instant, whatever may still be running
+	if snap.MaxSize != w.configuredMax {
+		instant = append(instant, fmt.Sprintf("MaxSize %d reported, %d configured", snap.MaxSize, w.configuredMax))
+	}
+	var atRest []string // holds once nothing runs any more
+	if snap.ReservedSize != 0 {
+		atRest = append(atRest, fmt.Sprintf("reservedSize=%d with no request in flight", snap.ReservedSize))
+	}
+	atRest = append(atRest, lib.CheckStatsAgree(w.c, snap)...)
+	if w.srv != nil {
+		atRest = append(atRest, w.srv.CheckStatusPage(snap)...)
+	}
+	return snap, instant, atRest
+}
+
+// checkQuiescent evaluates both monitors at a quiescent point.
 func (w *acctWorld) checkQuiescent(phase string) {
+	if w.phaseOverride != "" {
+		phase, w.phaseOverride = w.phaseOverride, ""
+	}
 	switch w.settle() {
 	case "reserved":
 		if w.which == "C03" {
@@ -619,22 +778,27 @@ func (w *acctWorld) checkQuiescent(phase string) {
 		w.r.Violation(w.which+":"+phase+":handler-never-returned", "a server handler is still running 20 s after every client call returned or was cancelled", w.detail(nil))
 		return
 	}
-	if w.srv != nil {
-		// aborted HTTP uploads: give handlers whose reservation is already gone a moment to remove their temp file
-		time.Sleep(2 * time.Millisecond)
-	}
-	snap := lib.Snapshot(w.c)
 	w.r.Count("snapshots")
-	w.r.Distinct(w.storage, len(snap.Entries), snap.CurrentSize, snap.ReservedSize)
 	if w.which == "C03" {
-		bad := lib.CheckAcct(snap)
-		if snap.ReservedSize != 0 {
-			bad = append(bad, fmt.Sprintf("reservedSize=%d with no request in flight", snap.ReservedSize))
+		snap, instant, atRest := w.quiescentAcct()
+		w.r.Distinct(w.storage, len(snap.Entries), snap.CurrentSize, snap.ReservedSize)
+		if len(instant) == 0 && len(atRest) > 0 && w.srv != nil {
+			// A handler may return before the upload goroutine it started has come to its end (ByteStream.Write returns on
+			// a receive error without waiting for the Put it fed): that goroutine may reserve, write and release AFTER
+			// every handler is gone. What must hold at rest is therefore a persistent-state verdict: the discrepancy has
+			// to show in every evaluation of a generous period.
+			deadline := time.Now().Add(20 * time.Second)
+			pause := time.Millisecond
+			for len(instant) == 0 && len(atRest) > 0 && time.Now().Before(deadline) {
+				time.Sleep(pause)
+				if pause < 200*time.Millisecond {
+					pause *= 2
+				}
+				w.r.Count("quiescence.re-polled")
+				snap, instant, atRest = w.quiescentAcct()
+			}
 		}
-		bad = append(bad, lib.CheckStatsAgree(w.c, snap)...)
-		if w.srv != nil {
-			bad = append(bad, w.srv.CheckStatusPage(snap)...)
-		}
+		bad := append(instant, atRest...)
 		if len(bad) > 0 {
 			w.r.Violation("C03:"+phase+":"+classify(bad[0]), fmt.Sprintf("accounting invariant broken (%s): %v", phase, bad), w.detail(bad))
 		}
@@ -644,7 +808,9 @@ func (w *acctWorld) checkQuiescent(phase string) {
 	// content hash) at every 4th and at the end of each history (phase "concurrent-quiescence" / last step)
 	w.dirChecks++
 	deep := w.dirChecks%4 == 0 || phase != "sequential" || w.lastStep
-	d, _, verdict := lib.CheckDirQuiescent(w.c, deep)
+	// (with front ends, goroutines of handlers whose client gave up may still create and remove their temporary file)
+	d, snap, verdict := lib.CheckDirQuiescentOpts(w.c, lib.DirQuiescence{Deep: deep, LingeringWriters: w.srv != nil})
+	w.r.Distinct(w.storage, len(snap.Entries), snap.CurrentSize, snap.ReservedSize)
 	if deep {
 		w.r.Count("dir.deep_checks")
 	}
@@ -654,6 +820,14 @@ func (w *acctWorld) checkQuiescent(phase string) {
 	case "inconclusive":
 		w.r.Inconclusive("deletion backlog did not drain within the watchdog")
 	case "ok":
+		if deep {
+			// AC/RAW entries carry no digest: complete == the bytes of a value that was accepted for the key
+			// (AC/RAW values are written through the disk API only, i.e. by no lingering writer; an entry evicted since the
+			// snapshot has no file any more and is skipped)
+			if bad := w.checkAcceptedValues(snap); len(bad) > 0 {
+				w.r.Violation("C04:"+phase+":ac-raw-entry-not-an-accepted-value", fmt.Sprintf("AC/RAW entries whose bytes are not a value accepted for their key (%s): %v", phase, bad), w.detail(bad))
+			}
+		}
 		if w.px == nil { // (with a backend an existence check may be answered by it)
 			if lost := lib.CheckEntriesFound(w.c, snap); len(lost) > 0 {
 				w.r.Violation("C04:"+phase+":file-of-entry-not-found-by-lookups", fmt.Sprintf("files on disk whose index entries no lookup finds (%s): %v", phase, lost), w.detail(lost))
@@ -709,13 +883,19 @@ func runAcctEngine(r *lib.Run, which string) {
 			return
 		}
 		hookMu.Lock()
-		d := hookRng.IntN(4)
+		d, us := hookRng.IntN(4), 200+hookRng.IntN(800)
 		hookMu.Unlock()
 		if d == 0 {
-			time.Sleep(time.Duration(200+hookRng.IntN(800)) * time.Microsecond)
+			time.Sleep(time.Duration(us) * time.Microsecond)
 		}
 	})
 	defer disk.VerifSetHook(nil)
+	hookCount := func(point string) int64 {
+		if c, ok := hookHits.Load(point); ok {
+			return c.(*atomic.Int64).Load()
+		}
+		return 0
+	}
 
 	pool := lib.NewDirPool("acct")
 	defer pool.Close()
@@ -727,11 +907,12 @@ func runAcctEngine(r *lib.Run, which string) {
 		// (max_size need not be a multiple of the 4 KiB accounting block)
 		maxes := []int64{8 * lib.KiB, 12 * lib.KiB, 16 * lib.KiB, 40 * lib.KiB, 100 * lib.KiB, 256 * lib.KiB, lib.MiB, 4 * lib.MiB, 10000, 20479, 50001, 100*lib.KiB + 123, lib.MiB + 4095}
 		max := maxes[rng.IntN(len(maxes))]
-		w := &acctWorld{r: r, which: which, rng: rng, max: max, storage: storage, caseID: fmt.Sprintf("%s-s%d-h%d", which, r.Seed, i)}
+		w := &acctWorld{r: r, which: which, rng: rng, max: max, configuredMax: max, storage: storage, caseID: fmt.Sprintf("%s-s%d-h%d", which, r.Seed, i), hookCount: hookCount}
 		w.ownDir = pool.Get()
 		opts := lib.ServerOpts{Dir: w.ownDir, MaxSize: max, Storage: storage, ZstdImpl: []string{"go", "cgo"}[rng.IntN(2)], NoGRPC: !viaServer}
 		if withProxy {
 			w.px = lib.NewFakeProxy(storage == "zstd")
+			w.px.ReadHook = w.proxyReadHook
 			opts.Proxy = w.px
 		}
 		if viaServer {
@@ -786,56 +967,83 @@ func runAcctEngine(r *lib.Run, which string) {
 				r.Count("op.restart-before-concurrent." + w.restart(rng))
 			}
 			hookDelay.Store(true)
+			w.concurrent = true
 			workers := 2 + rng.IntN(7)
-			var wg sync.WaitGroup
-			stop := make(chan struct{})
-			// sampler: M-acct at arbitrary instants
-			var samplerWG sync.WaitGroup
-			if which == "C03" {
-				samplerWG.Add(1)
-				go func() {
-					defer samplerWG.Done()
-					for {
-						select {
-						case <-stop:
-							return
-						default:
-						}
-						f := w.finished.Load()
-						snap := lib.Snapshot(w.c)
-						s := w.started.Load()
-						r.Count("sampler.snapshots")
-						r.Distinct(w.storage, len(snap.Entries), snap.CurrentSize, snap.ReservedSize)
-						if snap.ReservedSize > 0 {
-							r.Count("sampler.snapshots_with_reservation")
-						}
-						bad := lib.CheckAcct(snap)
-						// (only for synchronous disk-API histories: a server handler may legitimately outlive its client call for a moment)
-						if w.srv == nil && snap.ReservedSize > s-f {
-							bad = append(bad, fmt.Sprintf("reservedSize %d exceeds the declared sizes of all operations open at that instant (<= %d)", snap.ReservedSize, s-f))
-						}
-						if len(bad) > 0 {
-							r.Violation("C03:concurrent-sample:"+classify(bad[0]), fmt.Sprintf("accounting invariant broken at an arbitrary instant: %v", bad), w.detail(bad))
-							return
-						}
-						time.Sleep(50 * time.Microsecond)
-					}
-				}()
+			// in about a third of the histories the workers stop at barriers (everything pauses, both monitors at
+			// quiescence, everything resumes) instead of being checked only once at the very end
+			phases := 1
+			if rng.IntN(3) == 0 {
+				phases = 2 + rng.IntN(2)
+				r.Count("histories.concurrent.with-barriers")
 			}
-			for wk := 0; wk < workers; wk++ {
-				wg.Add(1)
-				wrng := rand.New(rand.NewPCG(uint64(r.Seed)*1000+uint64(i), uint64(wk)))
-				go func() {
-					defer wg.Done()
-					for s := 0; s < nops/2+1; s++ {
-						w.step(wrng, true)
-						r.Eval()
-					}
-				}()
+			perPhase := (nops/2 + 1 + phases - 1) / phases
+			for ph := 0; ph < phases; ph++ {
+				var wg sync.WaitGroup
+				stop := make(chan struct{})
+				// sampler: M-acct at arbitrary instants
+				var samplerWG sync.WaitGroup
+				if which == "C03" {
+					samplerWG.Add(1)
+					go func() {
+						defer samplerWG.Done()
+						for {
+							select {
+							case <-stop:
+								return
+							default:
+							}
+							f := w.finished.Load()
+							snap := lib.Snapshot(w.c)
+							total, reserved, _, _ := w.c.Stats()
+							s := w.started.Load()
+							r.Count("sampler.snapshots")
+							r.Distinct(w.storage, len(snap.Entries), snap.CurrentSize, snap.ReservedSize)
+							if snap.ReservedSize > 0 {
+								r.Count("sampler.snapshots_with_reservation")
+							}
+							bad := lib.CheckAcct(snap)
+							if snap.MaxSize != w.configuredMax {
+								bad = append(bad, fmt.Sprintf("MaxSize %d reported, %d configured", snap.MaxSize, w.configuredMax))
+							}
+							// what Stats() reports at an arbitrary instant, judged on its own (between two snapshots anything may
+							// have happened): 0 <= reserved <= total <= the configured max_size
+							if reserved < 0 || reserved > total || total > w.configuredMax {
+								bad = append(bad, fmt.Sprintf("Stats() at an arbitrary instant: total %d, reserved %d, configured max_size %d", total, reserved, w.configuredMax))
+							}
+							// (only for synchronous disk-API histories: a server handler may legitimately outlive its client call for a moment)
+							if w.srv == nil && snap.ReservedSize > s-f {
+								bad = append(bad, fmt.Sprintf("reservedSize %d exceeds the declared sizes of all operations open at that instant (<= %d)", snap.ReservedSize, s-f))
+							}
+							if w.srv == nil && reserved > s-f {
+								bad = append(bad, fmt.Sprintf("Stats() reports reservedSize %d, more than the declared sizes of all operations open at that instant (<= %d)", reserved, s-f))
+							}
+							if len(bad) > 0 {
+								r.Violation("C03:concurrent-sample:"+classify(bad[0]), fmt.Sprintf("accounting invariant broken at an arbitrary instant: %v", bad), w.detail(bad))
+								return
+							}
+							time.Sleep(50 * time.Microsecond)
+						}
+					}()
+				}
+				for wk := 0; wk < workers; wk++ {
+					wg.Add(1)
+					wrng := rand.New(rand.NewPCG(uint64(r.Seed)*1000+uint64(i), uint64(wk*8+ph)))
+					go func() {
+						defer wg.Done()
+						for s := 0; s < perPhase; s++ {
+							w.step(wrng, true)
+							r.Eval()
+						}
+					}()
+				}
+				wg.Wait()
+				close(stop)
+				samplerWG.Wait()
+				if ph < phases-1 {
+					r.Count("concurrent.barrier-checks")
+					w.checkQuiescent("concurrent-barrier")
+				}
 			}
-			wg.Wait()
-			close(stop)
-			samplerWG.Wait()
 			hookDelay.Store(false)
 			w.checkQuiescent("concurrent-quiescence")
 			r.Count("histories.concurrent")
